@@ -525,6 +525,29 @@ def f_cmp(fc, op, a, b):
     if isinstance(a, FInt) and isinstance(b, FInt):
         return int_cmp(op, a.v, b.v, 64, True)
     ra, rb = to_real(fc, a), to_real(fc, b)
+    # affine function of ONE integer cut compared with a constant: decide on the integer (exact)
+    if isinstance(b, float) or isinstance(a, float):
+        t, cst, opx = (ra, b, op) if isinstance(b, float) else (rb, a, {'<': '>', '<=': '>=', '>': '<', '>=': '<=', '==': '==', '!=': '!='}[op])
+        if not (math.isinf(cst) or math.isnan(cst)):
+            af = affine_of(fc, t)
+            if af is not None and af[0] is not None and af[1] != 0:
+                var, ca, cb = af
+                r = (Fraction(cst) - cb) / ca
+                if ca < 0:
+                    opx = {'<': '>', '<=': '>=', '>': '<', '>=': '<=', '==': '==', '!=': '!='}[opx]
+                iv = fc.cutvars[var.get_id()][1]
+                fl, ce = r.numerator // r.denominator, -((-r.numerator) // r.denominator)
+                if opx == '<':
+                    return int_cmp('<', iv, ce, 64, True)
+                if opx == '<=':
+                    return int_cmp('<=', iv, fl, 64, True)
+                if opx == '>':
+                    return int_cmp('>', iv, fl, 64, True)
+                if opx == '>=':
+                    return int_cmp('>=', iv, ce, 64, True)
+                if r.denominator != 1:
+                    return opx == '!='
+                return int_cmp(opx, iv, int(r), 64, True)
     if op == '<':
         return ra < rb
     if op == '<=':
@@ -536,6 +559,56 @@ def f_cmp(fc, op, a, b):
     if op == '==':
         return ra == rb
     return ra != rb
+
+
+def affine_of(fc, t, depth=0):
+    """(cutvar or None, a, b) with t == a*cutvar + b, a and b Fractions; None if t is not of that shape"""
+    if depth > 40:
+        return None
+    if z3.is_rational_value(t) or z3.is_int_value(t):
+        return (None, Fraction(0), t.as_fraction())
+    if not z3.is_app(t):
+        return None
+    if t.get_id() in fc.cutvars:
+        return (t, Fraction(1), Fraction(0))
+    k = t.decl().kind()
+    ch = t.children()
+    if k in (z3.Z3_OP_ADD, z3.Z3_OP_SUB):
+        acc = None
+        for i, c in enumerate(ch):
+            r = affine_of(fc, c, depth + 1)
+            if r is None:
+                return None
+            sign = -1 if (k == z3.Z3_OP_SUB and i > 0) else 1
+            if acc is None:
+                acc = (r[0], sign * r[1], sign * r[2])
+            else:
+                if acc[0] is not None and r[0] is not None and not acc[0].eq(r[0]):
+                    return None
+                acc = (acc[0] if acc[0] is not None else r[0], acc[1] + sign * r[1], acc[2] + sign * r[2])
+        return acc
+    if k == z3.Z3_OP_UMINUS:
+        r = affine_of(fc, ch[0], depth + 1)
+        return None if r is None else (r[0], -r[1], -r[2])
+    if k == z3.Z3_OP_MUL:
+        acc = (None, Fraction(0), Fraction(1))
+        for c in ch:
+            r = affine_of(fc, c, depth + 1)
+            if r is None:
+                return None
+            if acc[0] is not None and r[0] is not None:
+                return None
+            if r[0] is None:
+                acc = (acc[0], acc[1] * r[2], acc[2] * r[2])
+            else:
+                acc = (r[0], acc[2] * r[1], acc[2] * r[2])
+        return acc
+    if k == z3.Z3_OP_DIV:
+        a_, b_ = affine_of(fc, ch[0], depth + 1), affine_of(fc, ch[1], depth + 1)
+        if a_ is None or b_ is None or b_[0] is not None or b_[2] == 0:
+            return None
+        return (a_[0], a_[1] / b_[2], a_[2] / b_[2])
+    return None
 
 
 def f_neg(fc, a):
